@@ -6,10 +6,12 @@
    (conversions that overlap on one Serializer object, Model/SerReent.v), Proofs/SerProofs.v (simulation serializer state / collector
    state), Proofs/SerWfProofs.v (stream well-formedness), Proofs/SerDeserProofs.v (deserializer).
    Object instances (attributeSlice and the wrappers of Go structs): Model/SerStruct.v (objectvalue.go InitHash,
-   InitFromHash, setValues; attributesinfo.go PositionalFromHash), Proofs/SerStructProofs.v. *)
+   InitFromHash, setValues; attributesinfo.go PositionalFromHash), Proofs/SerStructProofs.v.
+   The consumer's Value.Equals as structural equality on pvalue and the boolean checkers of the attribute
+   hypotheses: Model/SerEq.v, Proofs/SerEqProofs.v (last section of this file). *)
 From Coq Require Import ZArith NArith Bool List.
-From PcoreV Require Import Model.Base Model.Ser Model.SerAttrs Model.SerReent Model.SerStruct Proofs.SerProofs Proofs.SerWfProofs
-  Proofs.SerDeserProofs Proofs.SerAttrsProofs Proofs.SerReentProofs Proofs.SerStructProofs.
+From PcoreV Require Import Model.Base Model.Ser Model.SerAttrs Model.SerReent Model.SerStruct Model.SerEq Proofs.SerProofs
+  Proofs.SerWfProofs Proofs.SerDeserProofs Proofs.SerAttrsProofs Proofs.SerReentProofs Proofs.SerStructProofs Proofs.SerEqProofs.
 Import ListNotations.
 
 (* ---- the stream is well formed: for EVERY value (no assumption on the identity tags) and every point of
@@ -442,3 +444,192 @@ Example C10_ex_struct :
           (fun p => init_from_hash ex_veq 1 ex_ep_decls (pobj_attrs p))
      = Ok [PStr [97]%N; PInt 80; PStr [104; 116]%N].
 Proof. repeat split; vm_compute; reflexivity. Qed.
+
+
+(* ---- the instance of `veq` that the correspondence run uses: structural equality pv_eqb (Model/SerEq.v;
+   Corr/CorrC10.v: pvalue_eqb := pv_eqb str_eqb, also the comparison of every observed result with the model's).
+   The theorems above take the soundness of veq as a hypothesis; here it is PROVED of that instance, sound and
+   complete, for all values by induction through the nested lists - and the theorems are restated without it. ---- *)
+
+(* pv_eqb decides equality of pvalue whenever the payload test decides equality of payloads *)
+Theorem C10_pvalue_eqb_decides_equality :
+  forall (payload : Type) (peqb : payload -> payload -> bool),
+    (forall p q, peqb p q = true <-> p = q) ->
+    forall a b : @pvalue payload, pv_eqb peqb a b = true <-> a = b.
+Proof. exact @pv_eqb_eq. Qed.
+Print Assumptions C10_pvalue_eqb_decides_equality.
+
+(* the instance of the case files (payload = the observed serialization string): a `true` of the comparison in
+   ser_check / attrs_check / struct_check IS equality of the model's result and the observed one *)
+Theorem C10_pvalue_eqb_str :
+  forall a b : @pvalue str, pv_eqb str_eqb a b = true <-> a = b.
+Proof. exact pv_eqb_str_eq. Qed.
+Print Assumptions C10_pvalue_eqb_str.
+
+Theorem C10_pvalue_list_eqb_str :
+  forall x y : list (@pvalue str), list_eqb (pv_eqb str_eqb) x y = true <-> x = y.
+Proof. exact list_pv_eqb_str_eq. Qed.
+Print Assumptions C10_pvalue_list_eqb_str.
+
+(* the hypotheses of C10_trim_fill / C10_init_hash_fill / C10_struct_roundtrip are decided (sufficiently) by the
+   checker attr_hyps_okb that attrs_check / struct_check apply to every case *)
+Theorem C10_attr_hyps_checker :
+  forall (payload : Type) (peqb : payload -> payload -> bool),
+    (forall p q, peqb p q = true -> p = q) ->
+    forall (l : list (attr payload)) (ds : list (decl payload)),
+      attr_hyps_okb peqb l ds = true ->
+      Forall2 (fun a d => d_name d = a_name a /\ isdef_sound a d) l ds /\ NoDup (map a_name l).
+Proof. exact @attr_hyps_okb_sound. Qed.
+Print Assumptions C10_attr_hyps_checker.
+
+(* C10_set_values_undoes_trim with Equals := pv_eqb: no hypothesis on Equals *)
+Theorem C10_set_values_undoes_trim_eqb :
+  forall (payload : Type) (peqb : payload -> payload -> bool),
+    (forall p q, peqb p q = true -> p = q) ->
+    forall (req : nat) (ds : list (decl payload)) given vs,
+      fill ds given = Ok vs -> init_from_hash (pv_eqb peqb) req ds given = Ok vs.
+Proof. exact @init_from_hash_is_fill_eqb. Qed.
+Print Assumptions C10_set_values_undoes_trim_eqb.
+
+(* C10_struct_roundtrip with Equals := pv_eqb *)
+Theorem C10_struct_roundtrip_eqb :
+  forall (payload : Type) (peqb : payload -> payload -> bool),
+    (forall p q, peqb p q = true -> p = q) ->
+    forall (to_s : str -> payload -> str) (of_s : str -> str -> option payload),
+    (forall tn p, of_s tn (to_s tn p) = Some p) ->
+    forall (o : opts) (c : caps) id ty req (l : list (attr payload)) disp (ds : list (decl payload)),
+      rich_data o = true ->
+      wf_rich (VObjS id ty l disp) -> rt_ok to_s (env_of o c) (VObjS id ty l disp) = true ->
+      Forall2 (fun a d => d_name d = a_name a /\ isdef_sound a d) l ds ->
+      NoDup (map a_name l) ->
+      bind (roundtrip to_s of_s o c (VObjS id ty l disp))
+           (fun p => init_from_hash (pv_eqb peqb) req ds (pobj_attrs p))
+        = Ok (map (fun a => erase (a_val a)) l).
+Proof. exact @struct_roundtrip_eqb. Qed.
+Print Assumptions C10_struct_roundtrip_eqb.
+
+(* ... and at the instance of the case files every remaining hypothesis is a boolean that the correspondence run
+   evaluates on each instance it meets (ser_check: wf_richb, rt_ok; struct_check: attr_hyps_okb): no Prop-level
+   hypothesis is left between "the case file evaluates to []" and the round trip of the model *)
+Theorem C10_struct_roundtrip_checked :
+  forall (o : opts) (c : caps) id ty req (l : list (attr str)) disp (ds : list (decl str)),
+    rich_data o = true ->
+    wf_richb (rvalue_eqb str_eqb) (VObjS id ty l disp) = true ->
+    rt_ok (fun _ p => p) (env_of o c) (VObjS id ty l disp) = true ->
+    attr_hyps_okb str_eqb l ds = true ->
+    bind (roundtrip (fun _ p => p) (fun _ s => Some s) o c (VObjS id ty l disp))
+         (fun p => init_from_hash (pv_eqb str_eqb) req ds (pobj_attrs p))
+      = Ok (map (fun a => erase (a_val a)) l).
+Proof. exact struct_roundtrip_checked. Qed.
+Print Assumptions C10_struct_roundtrip_checked.
+
+(* the same for the attribute route (C10_attr_route_roundtrip; ser_check + attrs_check evaluate the hypotheses) *)
+Theorem C10_attr_route_roundtrip_checked :
+  forall (o : opts) (c : caps) id ty req (l : list (attr str)) disp (ds : list (decl str)),
+    rich_data o = true ->
+    wf_richb (rvalue_eqb str_eqb) (VObjT id ty req l disp) = true ->
+    rt_ok (fun _ p => p) (env_of o c) (VObjT id ty req l disp) = true ->
+    attr_hyps_okb str_eqb l ds = true ->
+    bind (roundtrip (fun _ p => p) (fun _ s => Some s) o c (VObjT id ty req l disp)) (fun p => fill ds (pobj_attrs p))
+      = Ok (map (fun a => erase (a_val a)) l).
+Proof. exact attr_route_roundtrip_checked. Qed.
+Print Assumptions C10_attr_route_roundtrip_checked.
+
+(* COMPLETENESS of Equals is what makes the consumer's second trimming (attributesinfo.go:58-63) exact: what
+   PositionalFromHash cuts off is a suffix of optional attributes whose value IS the declared default ... *)
+Theorem C10_positional_trim_drops_defaults_only :
+  forall (payload : Type) (peqb : payload -> payload -> bool),
+    (forall p q, peqb p q = true <-> p = q) ->
+    forall (req : nat) (ds : list (decl payload)) (vs : list (@pvalue payload)),
+    exists K D,
+      combine ds vs = K ++ D /\ trim_p (pv_eqb peqb) req ds vs = map snd K /\
+      Forall (fun p => d_default (fst p) = Some (snd p)) D /\
+      (length D <= length vs - req)%nat.
+Proof. exact @trim_p_prefix_eqb. Qed.
+Print Assumptions C10_positional_trim_drops_defaults_only.
+
+(* ... and it stops only at a required position or at a value that is NOT the declared default of its attribute:
+   the positional slice handed to setValues is the shortest one *)
+Theorem C10_positional_trim_maximal :
+  forall (payload : Type) (peqb : payload -> payload -> bool),
+    (forall p q, peqb p q = true <-> p = q) ->
+    forall (req : nat) (ds : list (decl payload)) (vs ks : list (@pvalue payload)) v d,
+      length ds = length vs ->
+      trim_p (pv_eqb peqb) req ds vs = ks ++ [v] -> (req <= length ks)%nat ->
+      nth_error ds (length ks) = Some d -> d_default d <> Some v.
+Proof. exact @trim_p_last_eqb. Qed.
+Print Assumptions C10_positional_trim_maximal.
+
+(* non-vacuity: the test tells apart values that differ deep inside (a hash value inside a Sensitive inside an
+   object's attribute) and accepts equal ones; the Endpoint of C10_ex_struct passes the hypothesis checker and
+   comes back under Equals := pv_eqb; the second trimming keeps a default-valued attribute IN FRONT of a
+   non-default one and cuts the default-valued tail down to RequiredCount *)
+Definition ex_deep (z : Z) : @pvalue str :=
+  PObj (PStr [69]%N) [(PStr [97]%N, PSens (PHash [(PRich [84]%N [120]%N, PArr [PInt z; PFloat 0; PDefault])]))].
+Example C10_ex_pv_eqb :
+  pv_eqb str_eqb (ex_deep 1) (ex_deep 1) = true /\ pv_eqb str_eqb (ex_deep 1) (ex_deep 2) = false
+  /\ pv_eqb str_eqb (PInt 0) (PFloat 0) = false /\ pv_eqb str_eqb (PArr [PUndef]) (PArr [PUndef; PUndef]) = false.
+Proof. repeat split; vm_compute; reflexivity. Qed.
+
+Example C10_ex_struct_eqb :
+  attr_hyps_okb str_eqb ex_ep_attrs ex_ep_decls = true
+  /\ attr_hyps_okb str_eqb ex_ep_attrs [mkdecl [104]%N None; mkdecl [112]%N (Some (PInt 8080)); mkdecl [115]%N (Some (PStr [104]%N))] = false
+  /\ wf_richb (rvalue_eqb str_eqb) (VObjS 1 (VStr [69]%N) ex_ep_attrs []) = true
+  /\ bind (roundtrip (fun _ p => p) (fun _ s => Some s) (mkopts true true 2) (mkcaps true true 0)
+             (VObjS 1 (VStr [69]%N) ex_ep_attrs []))
+          (fun p => init_from_hash (pv_eqb str_eqb) 1 ex_ep_decls (pobj_attrs p))
+     = Ok [PStr [97]%N; PInt 80; PStr [104; 116]%N]
+  /\ trim_p (pv_eqb str_eqb) 1 ex_ep_decls [PStr [97]%N; PInt 8080; PStr [104]%N] = [PStr [97]%N; PInt 8080; PStr [104]%N]
+  /\ trim_p (pv_eqb str_eqb) 1 ex_ep_decls [PStr [97]%N; PInt 8080; PStr [104; 116]%N] = [PStr [97]%N]
+  /\ trim_p (pv_eqb str_eqb) 3 ex_ep_decls [PStr [97]%N; PInt 8080; PStr [104; 116]%N] = [PStr [97]%N; PInt 8080; PStr [104; 116]%N].
+Proof. repeat split; vm_compute; reflexivity. Qed.
+
+(* ---- open finding object-default-coarse-equals ----
+   The statement of C10_struct_roundtrip WITHOUT the hypothesis isdef_sound ("a set default flag means the value
+   equals the declared default") is false of the (faithful) model, and the implementation does set the flag on a
+   value that differs: attribute.Default(v) = declared default .Equals(v), and Timespan.Equals compares whole seconds
+   (types/timespantype.go:424-429).  My::Dur {n (required), span => Timespan 1 s} holding 1.5 s: InitHash leaves
+   span out, the rebuilt instance holds 1 s.  (Found by proving the consumer's Equals sound: pv_eqb is, the
+   implementation's is not on Timespans with different serialization strings.) *)
+Definition C10_struct_statement : Prop :=
+  forall (o : opts) (c : caps) id ty req (l : list (attr str)) disp (ds : list (decl str)),
+    rich_data o = true ->
+    wf_rich (VObjS id ty l disp) -> rt_ok (fun _ p => p) (env_of o c) (VObjS id ty l disp) = true ->
+    Forall2 (fun a d => d_name d = a_name a) l ds ->
+    NoDup (map a_name l) ->
+    bind (roundtrip (fun _ p => p) (fun _ s => Some s) o c (VObjS id ty l disp))
+         (fun p => init_from_hash (pv_eqb str_eqb) req ds (pobj_attrs p))
+      = Ok (map (fun a => erase (a_val a)) l).
+
+Definition ex_ts : str := [84; 105; 109; 101; 115; 112; 97; 110]%N.                 (* "Timespan" *)
+Definition ex_1s : str := [48; 45; 48; 48; 58; 48; 48; 58; 48; 49; 46; 48]%N.         (* "0-00:00:01.0" *)
+Definition ex_1s5 : str := [48; 45; 48; 48; 58; 48; 48; 58; 48; 49; 46; 53]%N.        (* "0-00:00:01.5" *)
+Definition ex_dur_attrs : list (attr str) :=
+  [mkattr [110]%N (VInt 1) false; mkattr [115]%N (VRich 0 ex_ts false ex_1s5 ex_1s5) true].
+Definition ex_dur_decls : list (decl str) := [mkdecl [110]%N None; mkdecl [115]%N (Some (PRich ex_ts ex_1s))].
+
+Theorem C10_coarse_equals_default_refuted :
+  exists (l : list (attr str)) (ds : list (decl str)),
+    attr_hyps_okb str_eqb l ds = false /\
+    Forall2 (fun a d => d_name d = a_name a) l ds /\ NoDup (map a_name l) /\
+    wf_richb (rvalue_eqb str_eqb) (VObjS 1 (VStr [68]%N) l []) = true /\
+    rt_ok (fun _ p => p) (env_of (mkopts true true 2) (mkcaps true true 0)) (VObjS 1 (VStr [68]%N) l []) = true /\
+    bind (roundtrip (fun _ p => p) (fun _ s => Some s) (mkopts true true 2) (mkcaps true true 0) (VObjS 1 (VStr [68]%N) l []))
+         (fun p => init_from_hash (pv_eqb str_eqb) 1 ds (pobj_attrs p)) = Ok [PInt 1; PRich ex_ts ex_1s] /\
+    map (fun a => erase (a_val a)) l = [PInt 1; PRich ex_ts ex_1s5].
+Proof.
+  exists ex_dur_attrs, ex_dur_decls.
+  split; [vm_compute; reflexivity|]. split; [repeat constructor|].
+  split; [cbn; repeat constructor; cbn; intuition discriminate|].
+  repeat split; vm_compute; reflexivity.
+Qed.
+Print Assumptions C10_coarse_equals_default_refuted.
+
+Theorem C10_struct_statement_refuted : ~ C10_struct_statement.
+Proof.
+  intros H. destruct C10_coarse_equals_default_refuted as (l & ds & _ & Hn & Hnd & Hwf & Hrt & Hback & Horig).
+  specialize (H (mkopts true true 2) (mkcaps true true 0) 1%N (VStr [68]%N) 1%nat l [] ds eq_refl
+                (wf_richb_str_sound _ Hwf) Hrt Hn Hnd).
+  rewrite Hback, Horig in H. discriminate.
+Qed.
+Print Assumptions C10_struct_statement_refuted.
